@@ -200,6 +200,23 @@ func normFact(f fact) fact {
 			f.V, f.Pol = u.X, !f.Pol
 			continue
 		}
+		// x == true / x != false / ... : a fact about x
+		if b, ok := f.V.(*ssa.BinOp); ok && (b.Op == token.EQL || b.Op == token.NEQ) {
+			x, k := b.X, b.Y
+			if _, isC := constBool(x); isC {
+				x, k = b.Y, b.X
+			}
+			if kb, isC := constBool(k); isC {
+				if _, alsoC := constBool(x); !alsoC {
+					pol := f.Pol == kb
+					if b.Op == token.NEQ {
+						pol = !pol
+					}
+					f.V, f.Pol = x, pol
+					continue
+				}
+			}
+		}
 		return f
 	}
 }
@@ -371,14 +388,14 @@ func isVar(name string) func(ssa.Value) bool {
 		v = strip(v)
 		switch x := v.(type) {
 		case *ssa.Parameter:
-			return x.Name() == name
+			return x.Name() == name || renamedTo(x.Parent(), x, name)
 		case *ssa.UnOp:
 			if x.Op == token.MUL {
 				switch a := x.X.(type) {
 				case *ssa.FreeVar:
-					return a.Name() == name
+					return a.Name() == name || renamedTo(a.Parent(), a, name)
 				case *ssa.Alloc:
-					return a.Comment == name
+					return a.Comment == name || renamedTo(a.Parent(), a, name)
 				}
 			}
 		}
